@@ -1,3 +1,55 @@
-From YV Require Import PyBase Token.
-Example c09_smoke : skip_space [] = [].
-Proof. reflexivity. Qed.
+(* C09 -- user macro definitions expand by TeX substitution, in order, from
+   any source.  Only statements here, closed by `exact`.  Model:
+   coq/model/Parser.v (generate_replacements), Expand.v (expand_macro).
+
+   Proved for every body and argument list: the replacement made for a use
+   is the body with each #n replaced by the n-th actual argument, in order;
+   argument tokens are inserted unchanged (text and position: C02), all other
+   tokens are pinned inside the use (C04); an undeclared name (a use before
+   its definition) is not expanded.  Not proved: the parsing of the
+   definition commands and of the actual arguments, and the independence of
+   the source of the definitions; these are compared with the
+   implementation by the correspondence run on the C09 stream. *)
+From YV Require Import PyBase Token PState Parser Expand ExpandSites.
+Open Scope Z_scope.
+
+(* (1) substitution: without the action tokens that only mark boundaries,
+   the result has the kinds and texts of the body with arguments put in *)
+Theorem C09_substitution : forall args body cur r,
+  gen_repl args body cur = Ok r ->
+  map shape (noact r) = map shape (noact (subst_body args body)).
+Proof. exact gen_repl_subst. Qed.
+Print Assumptions C09_substitution.
+
+(* (2) every token of the result is a token of an actual argument (as it
+   is), or a boundary action token at an end of an argument, or a body token
+   pinned at the current position or at an end of an argument *)
+Theorem C09_positions : forall args body cur r,
+  gen_repl args body cur = Ok r ->
+  Forall (fun t => (exists a, In a args /\ In t a) \/
+                   (is_action t = true /\ arg_ends args (pos t)) \/
+                   (pfix t = true /\ (pos t = cur \/ arg_ends args (pos t)))) r.
+Proof. exact gen_repl_positions. Qed.
+Print Assumptions C09_positions.
+
+(* (3) a use before the definition: the name is not declared, nothing is
+   expanded, the macro leaves an action token only *)
+Theorem C09_use_before_definition : forall T rd rec fuel st buf t math,
+  assoc (txt t) (macros st) = None ->
+  exists st',
+    expand_macro T rd rec fuel st buf t math = Ok (st', ([ActionT (pos t)], skip_space buf)) /\
+    unknowns st' = (if math then unknowns st else add_unknown (unknowns st) (txt t)) /\
+    macros st' = macros st /\ environs st' = environs st.
+Proof. exact expand_macro_undeclared. Qed.
+Print Assumptions C09_use_before_definition.
+
+(* body `a#1b#1` with argument `XY` standing at 10, 11; use at 5 *)
+Example C09_nonvacuous :
+  let X := mk KText 10 [88]%N false in let Y := mk KText 11 [89]%N false in
+  let a := mk KText 0 [97]%N false in let b := mk KText 0 [98]%N false in
+  let h := mk (KArg 1) 0 [35; 49]%N false in
+  exists r, generate_replacements [[X; Y]] [a; h; b; h] 5 = Ok r /\
+            map (fun t => (txt t, pos t, pfix t)) (noact r) =
+            [([97%N], 10, true); ([88%N], 10, false); ([89%N], 11, false);
+             ([98%N], 11, true); ([88%N], 10, false); ([89%N], 11, false)].
+Proof. eexists. split; reflexivity. Qed.
